@@ -535,6 +535,20 @@ def r13_key_immutable(ctx):
                                 f'key field {n.attr} ({fields[n.attr]}) of an event is written outside SimEvent.__init__', module=mod,
                                 where=f'{oc.name if oc else mod.name}.{fn.name}')
     ctx.floor('R1.3', 'writers of the key fields', nw, 3)
+    # the key an event is ordered by is the time / priority it was created with: the constructor stores its parameters unchanged
+    init = prog.method('SimEvent', '__init__', inherited=False)
+    params = {a.arg for a in init.args.args[1:]}
+    for f, role in sorted(fields.items()):
+        if role not in ('time', 'priority'):
+            continue
+        stores = [n for n in walk_shallow(init) if isinstance(n, (ast.Assign, ast.AnnAssign))
+                  and any(is_self_attr(t, f) for t in (n.targets if isinstance(n, ast.Assign) else [n.target]))]
+        ok = len(stores) == 1 and isinstance(stores[0].value, ast.Name) and stores[0].value.id in params and stores[0].value.id == role
+        ctx.ob('R1.3', f'SimEvent.__init__:{f}:stored-unchanged', ok, sample=f'SimEvent.__init__: {[short(x) for x in stores]}')
+        if not ok:
+            ctx.finding('R1.3', f'SimEvent.__init__:{f}:stored-value', ci, stores[0] if stores else init,
+                        f'the {role} of an event is not stored as the constructor argument `{role}` itself ({[short(x.value) for x in stores]}): '
+                        f'a valid {role} (e.g. 0) is replaced, so events are ordered by a different key than the one requested', where='SimEvent.__init__')
 
 
 def r14_counter(ctx):
